@@ -95,6 +95,15 @@ type BadNamedSlice struct {
 	X []zoo.INode `wire:"factory-pp"` // a name on a slice
 }
 
+// MarkerRunner / MarkerLoader carry the Priority marker without an Order method: unordered participants all the same
+type MarkerRunner struct{ Runner }
+
+func (*MarkerRunner) Priority() {}
+
+type MarkerLoader struct{ FLoader }
+
+func (*MarkerLoader) Priority() {}
+
 type Runner struct{ zoo.Core }
 
 func (r *Runner) Run() error {
@@ -272,7 +281,14 @@ func build(b *Base, faults []Site) *built {
 	for i := 0; i < b.Runners; i++ {
 		r := &Runner{}
 		r.B = &zoo.Beh{Alias: fmt.Sprintf("runner-%d", i), Mask: "m0"}
-		bu.runners = append(bu.runners, addExtra(r, r.B))
+		if (i+b.ObsKind)%3 == 1 {
+			mr := &MarkerRunner{}
+			mr.B = r.B
+			r = &mr.Runner
+			bu.runners = append(bu.runners, addExtra(mr, r.B))
+		} else {
+			bu.runners = append(bu.runners, addExtra(r, r.B))
+		}
 		for _, f := range faults {
 			if f.Kind == "run" && f.A == i {
 				r.B.FailRun = 1
@@ -304,7 +320,11 @@ func build(b *Base, faults []Site) *built {
 			}
 		}
 		bu.obs = append(bu.obs, o)
-		switch (k + b.ObsKind) % 3 {
+		switch (k + b.ObsKind) % 4 {
+		case 3:
+			// the Priority marker without Order: an unordered participant
+			in.Extra = append(in.Extra, &graph.MarkerObsPP{ObsPP: *o})
+			bu.obs[len(bu.obs)-1] = &in.Extra[len(in.Extra)-1].(*graph.MarkerObsPP).ObsPP
 		case 1:
 			o.OrderV = 1 // ordered, ahead of the built-in wiring processors
 			in.Extra = append(in.Extra, &graph.OrderedObsPP{ObsPP: *o})
@@ -397,6 +417,10 @@ func build(b *Base, faults []Site) *built {
 func (bu *built) run() {
 	ls := make([]configure.Loader, len(bu.loaders))
 	for i, l := range bu.loaders {
+		if (i+len(bu.runners))%3 == 2 {
+			ls[i] = &MarkerLoader{FLoader: *l} // a copy: counters are shared through the fired pointer
+			continue
+		}
 		ls[i] = l
 	}
 	bu.in.Run(app.SetConfigLoader(ls...))
@@ -411,7 +435,7 @@ func sites(b *Base) []Site {
 		out = append(out, Site{Kind: "aps", A: i}, Site{Kind: "init", A: i})
 		nm, _ := model.NameOf(probe.in.Comps[i])
 		names = append(names, nm)
-		if n.Variant == 'R' {
+		if n.Variant == 'R' || n.Variant == 'F' {
 			out = append(out, Site{Kind: "unsat-qs", A: i}, Site{Kind: "unsat-nx", A: i})
 		}
 	}
@@ -654,10 +678,13 @@ func genBase(t *rapid.T) *Base {
 		}
 		if sat && rapid.Bool().Draw(t, "req") {
 			s.Nodes[i].Variant = 'R'
+			if rapid.IntRange(0, 2).Draw(t, "embeddedreq") == 0 {
+				s.Nodes[i].Variant = 'F' // the required points sit in embedded structs, one of them with an unexported type name
+			}
 		}
 	}
 	return &Base{S: s, CfgA: rapid.Bool().Draw(t, "cfga"), CfgB: rapid.Bool().Draw(t, "cfgb"),
-		QPair: rapid.Bool().Draw(t, "qpair"), ObsKind: rapid.IntRange(0, 2).Draw(t, "obskind"), Runners: rapid.IntRange(1, 3).Draw(t, "runners"), Loaders: rapid.IntRange(1, 2).Draw(t, "loaders"), Obs: rapid.IntRange(0, 2).Draw(t, "obs")}
+		QPair: rapid.Bool().Draw(t, "qpair"), ObsKind: rapid.IntRange(0, 3).Draw(t, "obskind"), Runners: rapid.IntRange(1, 3).Draw(t, "runners"), Loaders: rapid.IntRange(1, 2).Draw(t, "loaders"), Obs: rapid.IntRange(0, 2).Draw(t, "obs")}
 }
 
 // TestSingleFaults: for each drawn base, the clean run and EVERY single fault site.
